@@ -83,7 +83,8 @@ def gen_cases(rng, tier):
             frames.append([cents, sats])
         vecs = [[rng.randint(-5, 5) for _ in range(3)] for _ in range(rng.randint(1, 4))]
         tm = [[rng.randint(-3, 3) for _ in range(3)] for _ in range(3)]
-        cases.append({'m': m, 'frames': frames, 'group': rng.choice(GROUPS), 'vecs': vecs, 'tmat': tm, 'aseed': rng.randrange(10**6), 'plots': rng.random() < 0.15})
+        cases.append({'m': m, 'frames': frames, 'group': rng.choice(GROUPS), 'vecs': vecs, 'tmat': tm, 'aseed': rng.randrange(10**6), 'plots': rng.random() < 0.15,
+                      'images': rng.randrange(10**6) if rng.random() < 0.3 else None})
     # a large system: more centre atoms than an 8-bit index can address and more than 256 satellites (oracle only)
     cases.append({'big': {'grid': [7, 6, 7], 'bond': 1.5, 'seed': rng.randrange(10**6)}, 'm': [[42, 0, 0], [0, 36, 0], [0, 0, 42]], 'frames': [], 'group': 'mmm', 'vecs': [], 'tmat': []})
     return cases
@@ -142,7 +143,7 @@ def impl(case):
     frames = case['frames']
     nc, ns = len(frames[0][0]), len(frames[0][1])
     coords = np.array([f[0] + f[1] for f in frames], dtype=float) / DEN
-    traj = synth.make_traj(case['m'], ['P'] * nc + ['S'] * ns, coords)
+    traj = synth.make_traj(case['m'], ['P'] * nc + ['S'] * ns, coords, images=case.get('images'))
     guard = synth.InputGuard(trajectory=traj)
     ori = Orientations(trajectory=traj, center_type='P', satellite_type='S')
     if case.get('plots'):
